@@ -241,7 +241,11 @@ def stepWriteStr (c : Col) (s : String) (r : Json) : StepV := Id.run do
   let model := modelWriteStr c s
   let mut v : StepV := { tags := [s!"w-str/{c.name}/{model.cls}"] }
   if cls == "panic" then
-    return { v with agree := model.cls == "panic", spec := "fail", what := "panic", panic := true, why := s!"write {s.quote}: panic {out.compress}" }
+    -- parameter class of the panic: is it the overflow mechanism of the pinned span arithmetic?
+    let mech := match c.ty with
+      | .duration => if (durationOfStringPinned s.toList c.unit).isPanic then "panic/i64-arith" else "panic"
+      | _ => "panic"
+    return { v with agree := model.cls == "panic", spec := "fail", what := mech, panic := true, why := s!"write {s.quote}: panic {out.compress}" }
   if model.cls != cls then
     v := { v with agree := false, what := s!"class/model={model.cls}/impl={cls}", why := s!"write {s.quote}: model {model.cls}, impl {out.compress}" }
   let oin := (r.getObjVal? "oracle_in").toOption
@@ -264,7 +268,7 @@ def stepWriteStr (c : Col) (s : String) (r : Json) : StepV := Id.run do
     | .timestamp =>
       match ch with
       | some (ns, false) => let x := expectedInt c ns; some (if inI64 x then some x else none)
-      | some (_, true) => none               -- leap seconds in timestamps: chrono's convention, not claimed
+      | some (ns, true) => let x := expectedInt c ns; some (if inI64 x then some x else none)  -- hh:mm:60 = one second after hh:mm:59
       | none => some none
     | .date _ =>
       match ch with
@@ -275,7 +279,10 @@ def stepWriteStr (c : Col) (s : String) (r : Json) : StepV := Id.run do
     if let .ok mv := model then
       if mv != x then v := { v with agree := false, what := "model-value", why := s!"write {s.quote}: model {mv}, impl {x}" }
     match expected with
-    | some (some e) => if e != x then return { v with spec := "fail", what := "value-spec", why := s!"write {s.quote}: stored {x}, the Arrow value is {e}" }
+    | some (some e) =>
+      if e != x then
+        let what := if leap && c.ty == .timestamp then "leap-second-dropped" else "value-spec"
+        return { v with spec := "fail", what, why := s!"write {s.quote}: stored {x}, the Arrow value is {e}" }
     | some none =>
       if leap then return { v with spec := "fail", what := "leap-second-stored", why := s!"write {s.quote}: stored {x}, not a valid time since midnight" }
       else if c.ty == .duration then return { v with spec := "fail", what := "accepted-unrepresentable", why := s!"write {s.quote}: stored {x} for an interval-style or out-of-range span" }
@@ -292,10 +299,12 @@ def stepWriteStr (c : Col) (s : String) (r : Json) : StepV := Id.run do
     let bcls := implCls back
     let mback := modelReadStr c x
     if bcls == "panic" then
-      return { v with agree := false, spec := "fail", what := "back-panic", panic := true, why := s!"write {s.quote} stored {x}: reading it back panics" }
+      let mech := if c.ty == .duration && (formatArrowDurationAsSpanPinned x c.unit).isPanic then "back-panic/i64-min" else "back-panic"
+      return { v with agree := false, spec := "fail", what := mech, panic := true, why := s!"write {s.quote} stored {x}: reading it back panics" }
     if mback.cls != bcls then
       v := { v with agree := false, what := s!"back-class/model={mback.cls}/impl={bcls}", why := s!"stored {x}: read back model {mback.cls}, impl {back.compress}" }
-    if leap && c.ty == .timestamp then return { v with spec := if v.spec == "fail" then "fail" else "na" }
+    -- a leap-second instant has no string form of its own: the read-back check is not applicable
+    if leap && c.ty == .timestamp then return v
     match bcls, outStr back with
     | "ok", some bs =>
       if let .ok ms := mback then
@@ -307,7 +316,10 @@ def stepWriteStr (c : Col) (s : String) (r : Json) : StepV := Id.run do
   | "err", _ =>
     if !(builderAccepts c).isOk then return { v with tags := s!"col-refused/{c.name}" :: v.tags } else
     match expected with
-    | some (some e) => return { v with spec := "fail", what := "rejected-valid", why := s!"write {s.quote}: error, the Arrow value {e} is representable: {out.compress}" }
+    | some (some e) =>
+      let fracDigits := ((s.toList.dropWhile (· != '.')).drop 1).takeWhile Char.isDigit |>.length
+      let what := if c.ty == .duration && fracDigits > 18 then "rejected-valid/subsecond-digits" else "rejected-valid"
+      return { v with spec := "fail", what, why := s!"write {s.quote}: error, the Arrow value {e} is representable: {out.compress}" }
     | _ => return v
   | _, _ => return { v with agree := false, spec := "na", what := "harness", why := s!"unexpected outcome {out.compress}" }
 
@@ -334,7 +346,11 @@ def stepReadStr (c : Col) (x : Int) (r : Json) : StepV := Id.run do
   let model := modelReadStr c x
   let mut v : StepV := { tags := [s!"r-str/{c.name}/{model.cls}"] }
   if cls == "panic" then
-    return { v with agree := model.cls == "panic", spec := "fail", what := "panic", panic := true, why := s!"read {x} as string: panic {out.compress}" }
+    let mech := match c.ty with
+      | .duration => if (formatArrowDurationAsSpanPinned x c.unit).isPanic then "panic/i64-min" else "panic"
+      | .date ty => if (dateToStringPinned ty x).isPanic then "panic/out-of-chrono-range" else "panic"
+      | _ => "panic"
+    return { v with agree := model.cls == "panic", spec := "fail", what := mech, panic := true, why := s!"read {x} as string: panic {out.compress}" }
   if model.cls != cls then
     v := { v with agree := false, what := s!"class/model={model.cls}/impl={cls}", why := s!"read {x}: model {model.cls}, impl {out.compress}" }
   let colOk := (readerAccepts c).isOk
@@ -343,7 +359,9 @@ def stepReadStr (c : Col) (x : Int) (r : Json) : StepV := Id.run do
     if let .ok ms := model then
       if ms != s then v := { v with agree := false, what := "model-string", why := s!"read {x}: model {ms}, impl {s}" }
     match checkBack c x s (r.getObjVal? "oracle_back").toOption with
-    | some (what, why) => return { v with spec := "fail", what, why := s!"read {x}: {why}" }
+    | some (what, why) =>
+      let what := if c.ty == .date .date64 && x < 0 && x % 86400000 != 0 then what ++ "/pre-epoch-part-day" else what
+      return { v with spec := "fail", what, why := s!"read {x}: {why}" }
     | none => return v
   | "err", _ =>
     if colOk && specReadable c x then
